@@ -59,6 +59,13 @@ class C10(ParserSessionProp):
             bump(stats, 'evaluations')
             cut = p['pops'] >= p['max_step']
             ref_scores = [d[0] for d in derivs]
+            # the two reference models (exhaustive enumeration here, Viterbi chart in C01/C16) must agree
+            vb = refparser.viterbi(world.n(sid), world.tag0[sid], world.dep0[sid], world.categories, surely,
+                                   world.memo, world.roots, penalty)
+            if (vb is None) != (not derivs) or (derivs and abs(vb - ref_scores[0]) > 1e-9 * max(1.0, abs(vb))):
+                from depsim.env import HarnessError
+                raise HarnessError(f'reference models disagree: viterbi {vb}, enumeration {ref_scores[:1]}')
+            bump(stats, 'reference_models_cross_checked')
             if k >= 2 and len(derivs) >= 2:
                 add_set(stats, 'nontrivial', digest((spec['world']['sentences'][sid]['tag']['hex'],
                                                      spec['world']['sentences'][sid]['dep']['hex'],
